@@ -71,18 +71,17 @@ def choose_overload(name, candidates, engine, receiver, context, args, kwargs):
 
     candidates2 = []
     lazy_params = None
-    no_kwargs = None
     if receiver is not utils.NO_VALUE:
         args = (receiver,) + args
+    # all candidates must agree on keyword-argument support before the
+    # arguments are translated, whatever order the overloads come in
+    no_kwargs = set(c.no_kwargs for level in candidates for c in level)
+    if len(no_kwargs) > 1:
+        raise_ambiguous()
+    args, kwargs = translate_args(True in no_kwargs, args, kwargs)
     for level in candidates:
         new_level = []
         for c in level:
-            if no_kwargs is None:
-                no_kwargs = c.no_kwargs
-                args, kwargs = translate_args(no_kwargs, args, kwargs)
-            elif no_kwargs != c.no_kwargs:
-                raise_ambiguous()
-
             mapping = c.map_args(args, kwargs, context, engine)
             if mapping is None:
                 continue
